@@ -30,9 +30,11 @@ func vfH_C12_candidate_commit() {
 	var aofId [16]byte
 	when := vfChoice("foreignWhen", 2) // 0: before the round starts, 1: nothing foreign (control)
 	foreign := false
+	// the foreign candidate C proposes itself, or this member (whose log it found to be the newest)
+	fhost := [2]string{"C", "A"}[vfChoice("foreignHost", 2)]
 	if when == 0 {
-		foreign = vfRemoteProposal(m, vfCandBp, 6, "C", aofId) && vfRemoteCommit(m, vfCandBp, 6, "C", aofId)
-		vfAssert(foreign && v.proposalHost == "C" && v.commitId == 6, "C12: harness: the foreign candidacy was not accepted")
+		foreign = vfRemoteProposal(m, vfCandBp, 6, fhost, aofId) && vfRemoteCommit(m, vfCandBp, 6, fhost, aofId)
+		vfAssert(foreign && v.proposalHost == fhost && v.commitId == 6, "C12: harness: the foreign candidacy was not accepted")
 	}
 	vfGoInline(true)
 	err := v.DoCommit()
@@ -40,7 +42,7 @@ func vfH_C12_candidate_commit() {
 	vfAssert(err != nil, "C12: harness: the commit round was expected to fail (own vote only)")
 	if foreign {
 		vfReach("foreign-committed")
-		vfAssert(v.proposalHost == "C" && v.commitId == 6, "C12: a failed commit round of its own made the member forget the commit it had given to another candidate")
+		vfAssert(v.proposalHost == fhost && v.commitId == 6, "C12: a failed commit round of its own made the member forget the commit it had given to another candidate")
 		// a third candidacy (B, number 7) must still be refused
 		third := vfRemoteProposal(m, bpB, 7, "B", aofId) && vfRemoteCommit(m, bpB, 7, "B", aofId)
 		vfAssert(!third, "C12: one member accepted the commits of two candidacies with no announcement in between")
